@@ -164,7 +164,7 @@ func c06serve(optBits int, routes []string, order []int, method, uri string) (re
 }
 
 func init() {
-	register(&Unit{Name: "c06.router", Props: []string{"C06"}, ShrinkOps: true, KeepPrefix: 4,
+	register(&Unit{Name: "c06.router", Props: []string{"C06"}, ShrinkOps: true, KeepPrefix: 4, SpecExact: true,
 		// in: option bits, order seed, method (G/P), request URI (bytes), routes "<M><pattern>"...
 		Check: func(t *T, in In) []Finding {
 			optBits, seed, method, uri := in.N(0), in.N(1), in.S(2), string(in.B(3))
